@@ -166,7 +166,11 @@ func decide(ob *Obligation, script string, cfg *SolverCfg) *ObResult {
 			res.Verdict = "proved"
 		case v == "sat":
 			res.Verdict = "failed"
-			_, mout, _ := runSolver(context.Background(), solver, script, cfg.LongTimeout, cfg.Seed, true)
+			base := solver
+			if i := strings.Index(base, "@"); i >= 0 {
+				base = base[:i]
+			}
+			_, mout, _ := runSolver(context.Background(), base, script, cfg.LongTimeout, cfg.Seed, true)
 			res.Model = mout
 		default:
 			res.Verdict = "undecided"
@@ -198,11 +202,23 @@ func decide(ob *Obligation, script string, cfg *SolverCfg) *ObResult {
 		secs           float64
 	}
 	ch := make(chan r, 4)
-	names := []string{"z3-new-as2", "z3", "cvc5", "z3-new"}
+	// a proof found under any solver/seed is a proof; several seeds make the verdict independent of the
+	// seed the caller happens to export (VERIF_SEED only shifts which seeds are tried)
+	type variant struct {
+		label, solver string
+		seed          int
+	}
+	names := []variant{{"z3-new-as2", "z3-new-as2", cfg.Seed + 1}, {"z3", "z3", cfg.Seed + 1}, {"cvc5", "cvc5", cfg.Seed + 1}, {"z3-new", "z3-new", cfg.Seed + 1},
+		{"z3-new@seed0", "z3-new", 0}, {"z3-new@alt", "z3-new", cfg.Seed + 7919}}
+	if cfg.Seed == 0 {
+		names = names[:4]
+		names = append(names, variant{"z3-new@alt", "z3-new", 7919})
+	}
+	ch = make(chan r, len(names))
 	for _, n := range names {
-		go func(n string) {
-			v, o, s := runSolver(ctx, n, script, cfg.LongTimeout, cfg.Seed+1, false)
-			ch <- r{v, n, o, s}
+		go func(n variant) {
+			v, o, s := runSolver(ctx, n.solver, script, cfg.LongTimeout, n.seed, false)
+			ch <- r{v, n.label, o, s}
 		}(n)
 	}
 	var maxSecs float64
